@@ -213,6 +213,79 @@ def case_target(path):
     return None
 
 
+
+def read_case(path):
+    head, tape = [], []
+    for l in open(path):
+        if l.startswith("tape"):
+            tape = [int(x) for x in l.split()[1:]]
+        else:
+            head.append(l.rstrip("\n"))
+    return head, tape
+
+
+def write_case(path, head, tape):
+    t = list(tape)
+    while t and t[-1] == 0:
+        t.pop()
+    with open(path, "w") as f:
+        f.write("\n".join(head) + "\ntape " + " ".join(map(str, t)) + "\n")
+
+
+def shrink_crash(target, path, kf_args, budget_runs=300, budget_s=120):
+    """Sanitizer reports and assertions abort the process, which bypasses rapidcheck's shrinking.  Minimise such a case here by replaying
+    candidate tapes (shorter prefix, zeroed words, halved words) and keeping those that still die; bounded by a run and time budget."""
+    t0 = time.time()
+    head, tape = read_case(path)
+    runs = [0]
+    tmp = path + ".cand"
+
+    def dies(t):
+        if runs[0] >= budget_runs or time.time() - t0 > budget_s:
+            return False
+        runs[0] += 1
+        write_case(tmp, head, t)
+        rc, _ = replay_once(target, tmp, kf_args, timeout=120)
+        return rc is not None and rc not in (0, 2)
+
+    best = list(tape)
+    # 1. shortest prefix
+    lo, hi = 0, len(best)
+    while lo < hi:
+        mid = (lo + hi) // 2
+        if dies(best[:mid]):
+            hi = mid
+        else:
+            lo = mid + 1
+    if hi < len(best) and dies(best[:hi]):
+        best = best[:hi]
+    # 2. zero blocks of words (block size halving, delta-debugging style), then halve single survivors
+    block = max(1, len(best) // 2)
+    while block >= 1 and runs[0] < budget_runs:
+        i = 0
+        while i < len(best):
+            if any(best[i:i + block]):
+                cand = list(best); cand[i:i + block] = [0] * len(cand[i:i + block])
+                if dies(cand):
+                    best = cand
+            i += block
+        block //= 2
+    for i in range(len(best) - 1, -1, -1):
+        if best[i] > 1:
+            cand = list(best); cand[i] = best[i] // 2
+            if dies(cand):
+                best = cand
+    out = path[:-5] + ".min.case" if path.endswith(".case") else path + ".min"
+    head2 = [h for h in head if not h.startswith("# message")] + ["# message minimised by the driver from %s (%d words -> %d non-zero words, %d replays)" % (os.path.basename(path), len(tape), sum(1 for w in best if w), runs[0])]
+    write_case(out, head2, best)
+    try:
+        os.remove(tmp)
+    except OSError:
+        pass
+    rc, _ = replay_once(target, out, kf_args, timeout=120)
+    return out if (rc is not None and rc not in (0, 2)) else path
+
+
 def main():
     args = sys.argv[1:]
     if not args:
@@ -467,6 +540,9 @@ def run_property(prop, tier):
                 log = crash + ".log"
                 rep = [l for l in (txt or "").splitlines() if "ERROR:" in l or "SUMMARY:" in l or "runtime error" in l or "Assertion" in l]
                 open(log, "w").write((txt or "")[-20000:] + "\n==== replay ====\n" + (rout or "")[-20000:])
+                stop.set()
+                if not any(True for _ in violations):
+                    crash = shrink_crash(j["target"], crash, kf_args)   # only the first one is minimised (bounded budget)
                 violations.append((crash, "process died while running the case (%s); log %s" % ("; ".join(x.strip()[:200] for x in rep[:2]) or "sanitizer report / assertion / signal", log)))
                 stop.set()
             else:
